@@ -1332,3 +1332,111 @@ Proof.
     destruct Hok as (Hname & _). destruct Hok0 as (Hname0 & _). pose proof (Hrng d Hin). pose proof (Hrng d0 Hin0).
     assert (Z.to_nat (a_src d) = Z.to_nat (a_src d0)) by (eapply U; eauto; congruence). lia.
 Qed.
+
+Lemma InvT_ext b (T T':tview) M : (forall j, T' j = T j) -> InvT b T M -> InvT b T' M.
+Proof.
+  intros H (U & Mw & Hp & Hd). split; [eapply uniq_ext; eauto|]. split; [exact Mw|]. split.
+  - intros j e Hj. rewrite H in Hj. exact (Hp j e Hj).
+  - intros d Hin Hn. destruct (Hd d Hin Hn) as (e & He & Hok). exists e. rewrite H. auto.
+Qed.
+
+Lemma at_src_in a f M d' : In d' (at_src a f M) -> exists d, In d M /\ d' = (if a_src d =? a then f d else d).
+Proof. unfold at_src. intros H. apply in_map_iff in H. destruct H as (d & Hd & Hin). exists d. auto. Qed.
+Lemma at_src_wf a f M : (forall d, a_src (f d) = a_src d) -> Mwf M -> Mwf (at_src a f M).
+Proof.
+  intros Hf (Hnd & Hr). assert (Hmap : map a_src (at_src a f M) = map a_src M).
+  { unfold at_src. rewrite map_map. apply map_ext. intros d. destruct (a_src d =? a); [apply Hf|reflexivity]. }
+  split; [rewrite Hmap; exact Hnd|]. intros d' Hin. destruct (at_src_in _ _ _ _ Hin) as (d & Hd & ->).
+  destruct (a_src d =? a); [rewrite Hf|]; apply Hr; exact Hd.
+Qed.
+
+(* one slot changes, the entry keeps its NAME; the mirror changes (at most) for the devices of that source *)
+Lemma inv_one b (T T':tview) M s e e2 f : InvT b T M -> (s < 254)%nat -> T s = Some e -> (forall j, T' j = T_set T s (Some e2) j) ->
+  e_name e2 = e_name e -> nrm (e_pi e2) -> (forall d, a_name (f d) = a_name d /\ a_src (f d) = a_src d) ->
+  (forall d, In d M -> a_name d <> 0 -> a_src d = Z.of_nat s -> dev_ok b d e -> dev_ok b (f d) e2) ->
+  InvT b T' (at_src (Z.of_nat s) f M).
+Proof.
+  intros (U & Mw & Hp & Hd) Hs He HT' Hn Hnrm Hf Hdev. split; [|split; [|split]].
+  - eapply uniq_ext; [exact HT'|]. apply uniq_set; [exact U|]. intros Hnz j e' Hj Hje Heq. apply Hj. eapply U; eauto; congruence.
+  - apply at_src_wf; [intros d; apply Hf|exact Mw].
+  - intros j x Hj. rewrite HT' in Hj. unfold T_set in Hj. destruct (Nat.eqb_spec j s); [injection Hj as <-; exact Hnrm|exact (Hp j x Hj)].
+  - intros d' Hin Hn0. destruct (at_src_in _ _ _ _ Hin) as (d & Hdin & ->). destruct Mw as (_ & Hr). pose proof (Hr d Hdin).
+    destruct (Z.eqb_spec (a_src d) (Z.of_nat s)) as [Hsd|Hsd].
+    + destruct (Hf d) as (Hfn & Hfs). rewrite Hfn in Hn0. destruct (Hd d Hdin Hn0) as (x & Hx & Hok).
+      rewrite Hsd, Nat2Z.id in Hx. rewrite He in Hx. injection Hx as <-.
+      exists e2. rewrite Hfs, Hsd, Nat2Z.id, HT', T_set_eq. split; [reflexivity|]. apply Hdev; auto.
+    + destruct (Hd d Hdin Hn0) as (x & Hx & Hok). exists x. rewrite HT', T_set_neq by lia. auto.
+Qed.
+Lemma at_src_id a M : at_src a (fun d => d) M = M.
+Proof. unfold at_src. rewrite <- (map_id M) at 2. apply map_ext. intros d. destruct (a_src d =? a); reflexivity. Qed.
+
+(* only request bookkeeping changes, anywhere *)
+Lemma dev_ok_eqv b d e e1 : eqv e e1 -> dev_ok b d e -> dev_ok b d e1.
+Proof. intros ->. intros H. exact H. Qed.
+Lemma inv_eqv b (T T':tview) M : InvT b T M ->
+  (forall j, match T j with Some e => exists e1, T' j = Some e1 /\ eqv e e1 | None => T' j = None end) -> InvT b T' M.
+Proof.
+  intros (U & Mw & Hp & Hd) H. split; [|split; [exact Mw|split]].
+  - intros i j ei ej Hi Hj Hn Hnz. pose proof (H i) as Hi'. pose proof (H j) as Hj'.
+    destruct (T i) as [xi|] eqn:Ei; [|congruence]. destruct (T j) as [xj|] eqn:Ej; [|congruence].
+    destruct Hi' as (yi & Eyi & Vi). destruct Hj' as (yj & Eyj & Vj). rewrite Hi in Eyi. rewrite Hj in Eyj. injection Eyi as <-. injection Eyj as <-.
+    assert (e_name ei = e_name xi) by (rewrite Vi; reflexivity). assert (e_name ej = e_name xj) by (rewrite Vj; reflexivity).
+    eapply U; eauto; congruence.
+  - intros j x Hj. pose proof (H j) as Hj'. destruct (T j) as [y|] eqn:Ej; [|congruence]. destruct Hj' as (z & Ez & V). rewrite Hj in Ez. injection Ez as <-.
+    rewrite V. exact (Hp j y Ej).
+  - intros d Hin Hn0. destruct (Hd d Hin Hn0) as (e & He & Hok). pose proof (H (Z.to_nat (a_src d))) as H'. rewrite He in H'.
+    destruct H' as (e1 & E1 & V). exists e1. split; [exact E1|]. eapply dev_ok_eqv; eauto.
+Qed.
+Lemma inv_req_only b st st' M : InvT b (slot st) M -> req_only st st' -> InvT b (slot st') M.
+Proof. intros I (_ & _ & _ & H). eapply inv_eqv; eauto. Qed.
+
+(* a placeholder appears in an empty slot *)
+Lemma inv_add b (T T':tview) M s ph : InvT b T M -> T s = None -> e_name ph = 0 -> nrm (e_pi ph) -> (forall j, T' j = T_set T s (Some ph) j) -> InvT b T' M.
+Proof.
+  intros (U & Mw & Hp & Hd) Hs Hn Hnrm HT'. split; [|split; [exact Mw|split]].
+  - eapply uniq_ext; [exact HT'|]. apply uniq_set; [exact U|]. intros Hnz. congruence.
+  - intros j x Hj. rewrite HT' in Hj. unfold T_set in Hj. destruct (Nat.eqb_spec j s); [injection Hj as <-; exact Hnrm|exact (Hp j x Hj)].
+  - intros d Hin Hn0. destruct (Hd d Hin Hn0) as (e & He & Hok). exists e. rewrite HT'. unfold T_set.
+    destruct (Nat.eqb_spec (Z.to_nat (a_src d)) s) as [Heq|_]; [rewrite Heq in He; congruence|auto].
+Qed.
+
+(* ---------- the specification reads the messages as the model does ---------- *)
+Lemma s_name_eq m : s_name (pl m) = claim_name m.
+Proof.
+  unfold claim_name, s_name, get_num, two64. change (0 + Z.of_nat 8) with 8. set (d := pl m).
+  destruct (Nat.leb_spec 8 (length d)) as [H|H]; destruct (Z.leb_spec 8 (Z.of_nat (length d))) as [H'|H']; try lia; [|reflexivity].
+  cbn [fst Z.to_nat skipn]. do 8 (destruct d as [|? d]; [cbn [length] in H; lia|]). unfold byte. cbn [nth firstn le_num]. ring.
+Qed.
+Lemma cut_text : forall l, cut 255 l = s_text l.
+Proof. induction l as [|b l IH]; [reflexivity|]. cbn [cut s_text]. rewrite IH. reflexivity. Qed.
+Lemma s_prod_eq m : s_prod (pl m) = parse_pi m.
+Proof.
+  unfold s_prod, parse_pi, PI_LEN, dlen. set (d := pl m).
+  destruct (Nat.leb_spec 134 (length d)) as [H|H]; destruct (Z.ltb_spec (Z.of_nat (length d)) 134) as [H'|H']; try lia; [|reflexivity].
+  f_equal. unfold fixstr, sub. rewrite !cut_text.
+  assert (H0 : fst (get_num d 2 0 65535) = byte d 0 + 256 * byte d 1).
+  { unfold get_num. change (0 + Z.of_nat 2) with 2. destruct (Z.leb_spec 2 (Z.of_nat (length d))); [|lia]. cbn [fst Z.to_nat skipn].
+    do 2 (destruct d as [|? d]; [cbn [length] in H; lia|]). unfold byte. cbn [nth firstn le_num]. ring. }
+  assert (H2 : fst (get_num d 2 2 65535) = byte d 2 + 256 * byte d 3).
+  { unfold get_num. change (2 + Z.of_nat 2) with 4. destruct (Z.leb_spec 4 (Z.of_nat (length d))); [|lia]. cbn [fst]. change (Z.to_nat 2) with 2%nat.
+    do 4 (destruct d as [|? d]; [cbn [length] in H; lia|]). unfold byte. cbn [skipn nth firstn le_num]. ring. }
+  rewrite H0, H2. unfold znth, byte. rewrite (nth_indep d 255 0) by lia. rewrite (nth_indep d 255 0) by lia. reflexivity.
+Qed.
+Lemma s_reported_eq p : s_reported p = pi_norm p.
+Proof. reflexivity. Qed.
+Lemma list_eqb_eq : forall a b, list_eqb a b = true -> a = b.
+Proof.
+  induction a as [|x a IH]; intros [|y b] H; cbn [list_eqb] in H; try discriminate; [reflexivity|].
+  apply andb_true_iff in H. destruct H as (H1 & H2). apply Z.eqb_eq in H1. subst. f_equal. apply IH. exact H2.
+Qed.
+Lemma pi_same_eq a b : pi_same a b = true -> a = b.
+Proof.
+  unfold pi_same. intros H. repeat (apply andb_true_iff in H; destruct H as (H & ?)).
+  destruct a, b. cbn [p_ver p_code p_mid p_sw p_mver p_ser p_cert p_load] in *.
+  repeat match goal with H : (_ =? _) = true |- _ => apply Z.eqb_eq in H | H : list_eqb _ _ = true |- _ => apply list_eqb_eq in H end. subst. reflexivity.
+Qed.
+Lemma pi_norm_nrm p : nrm p -> pi_norm p = p.
+Proof.
+  intros (H1 & H2 & H3). unfold pi_norm. destruct p. cbn [p_ver p_code p_mid p_sw p_mver p_ser p_cert p_load] in *.
+  destruct (Z.eqb_spec p_ver 65535); [lia|]. destruct (Z.eqb_spec p_cert 255); [lia|]. destruct (Z.eqb_spec p_load 255); [lia|]. reflexivity.
+Qed.
